@@ -195,7 +195,13 @@ bool GeneratorImplAST::ViDecart(Cursor iter) {
     if (child > 0) {
       rsText += Token::Str(TokenID::DECART, syntax);
     }
-    OutputChild(iter, child, iter(child).id == TokenID::DECART);
+    const auto childID = iter(child).id;
+    const auto order = Token::CompareOperations(TokenID::DECART, childID);
+    const auto needBrackets = 
+      childID == TokenID::DECART || 
+      order == Comparison::GREATER ||
+      (child > 0 && order == Comparison::EQUAL);
+    OutputChild(iter, child, needBrackets);
   }
   return true;
 }
